@@ -17,7 +17,7 @@ NestedStringTokenizer::NestedStringTokenizer(const std::string& s, const std::st
 {
   int blocks = 0;
   string cache = "";
-  if (!solid)
+  if (!solid || delimiters.empty())
   {
     string::size_type index = s.find_first_not_of(delimiters, 0);
     while (index != s.npos)
